@@ -126,6 +126,20 @@ func prepareRender(c J) (*renderSetup, error) {
 	if err != nil {
 		return nil, err
 	}
+	if jbool(c, "weird") {
+		for k, v := range weirdEnv() {
+			if _, ok := env[k]; !ok {
+				env[k] = v
+			}
+		}
+	}
+	if jbool(c, "testenv") {
+		for k, v := range repoTestEnv() {
+			if _, ok := env[k]; !ok {
+				env[k] = v
+			}
+		}
+	}
 	rs := &renderSetup{bindings: env, line0: jint(c, "line0")}
 	files, cache := jarr(c, "files"), jarr(c, "cache")
 	path := bytesOf(c["path"])
@@ -316,4 +330,20 @@ func cloneCase(c J) J {
 		obs[k] = v
 	}
 	return obs
+}
+
+
+// repoTestEnv resembles the bindings the repository's own tests render their templates with.
+func repoTestEnv() map[string]any {
+	return map[string]any{
+		"x": 123, "a": []any{"first", "second", "third"}, "array": []any{"first", "second", "third"}, "ar": []string{"first", "second", "third"},
+		"obj": map[string]any{"a": 1, "b": "c"}, "hash": map[string]any{"a": "first", "b": map[string]any{"c": "d"}, "c": []string{"r", "g", "b"}},
+		"animals": []string{"zebra", "octopus", "giraffe", "Sally Snake"}, "page": map[string]any{"title": "Introduction", "keys": []string{"a"}},
+		"pages": []any{map[string]any{"category": "business", "name": "page 1"}, map[string]any{"name": "page 3"}, map[string]any{"category": "technology", "name": "page 2"}},
+		"products": []any{map[string]any{"title": "Vacuum", "type": "cleaning"}, map[string]any{"title": "Spatula", "type": "kitchen"}},
+		"sort_prop": []any{map[string]any{"weight": 1}, map[string]any{"weight": 5}, map[string]any{"weight": nil}, map[string]any{"weight": 3}},
+		"string_with_newlines": "\nHello\nthere\n", "fruits": []string{"apples", "oranges", "peaches", "plums"}, "empty_list": []any{}, "empty_array": []any{},
+		"article": map[string]any{"published_at": "2015-07-17T15:04:05Z"}, "dup_ints": []int{1, 2, 1, 3}, "mixed_case_array": []string{"c", "a", "B"},
+		"safe": "a", "v": "v", "ints": []int{2, 1, 3}, "map": map[string]any{"a": 1}, "site": map[string]any{"pages": []any{}}, "title": "t",
+	}
 }
